@@ -300,6 +300,12 @@ impl Runnable {
     }
 
     /// Polls the wrapped future.
+    /// Identifier of the task (verification hook).
+    #[cfg(nexosim_verif)]
+    pub(crate) fn id(&self) -> usize {
+        self.task as usize
+    }
+
     pub(crate) fn run(self) {
         // Prevent the drop handler from being called, as it would call `cancel`
         // on the inner field.
